@@ -299,7 +299,8 @@ def run_harness(h, keep=False, extra_defines=()):
             dst, lm, fired = inject(tu, injs, scratch)
             linemaps[os.path.basename(dst)] = (tu, lm)
             res['injected'] += fired
-            if h.meta.get('include_tu'):
+            inc_tu = h.meta.get('include_tu')
+            if inc_tu is True or (isinstance(inc_tu, list) and tu in inc_tu):
                 so = [plain(x) for x in h.meta.get('stub_out', [])]
                 if so:
                     # include_tu mode: the stubbed-out callees keep their text but their definitions are renamed
@@ -345,10 +346,11 @@ def run_harness(h, keep=False, extra_defines=()):
                 if mo:
                     names.add(mo.group(1))
             defined.append(names)
-        n_tu = 0 if h.meta.get('include_tu') else len(h.tus)
+        inc_tu = h.meta.get('include_tu')
+        n_tu = 0 if inc_tu is True else (len(h.tus) - len(inc_tu) if isinstance(inc_tu, list) else len(h.tus))
         tu_defs = set().union(*defined[:n_tu]) if n_tu else set()
         h_defs = set().union(*defined[n_tu:]) if defined[n_tu:] else set()
-        clash = sorted(x for x in (tu_defs & h_defs) if not x.startswith('__CPROVER') and x not in ('v_streq',))
+        clash = sorted(x for x in (tu_defs & h_defs) if not x.startswith('__') and x not in ('v_streq',))
         if clash:
             raise Undecided('harness defines function(s) that also have a real body in a TU: %s (add them to stub_out)' % clash)
         a = os.path.join(scratch, 'a.gb')
